@@ -135,3 +135,20 @@ prop("C36",
      rule="current lists = all subsets of size 1..6 of a 7-key universe (8 in thorough), main lists = all supersized subsets (quick: a seeded quarter), "
           "each in shuffled order; per pair two inner rings = alphabet + 0..2 extra keys incl. keys that become alphabet; non-trivial = a rotation "
           "is proposed; distinct by op")
+
+prop("C21",
+     theorems=["NeoFS.EC.parts_equal_length", "NeoFS.EC.concat_split", "NeoFS.EC.decode_any_subset", "NeoFS.EC.decode_range_exact",
+               "NeoFS.EC.idCoder_lawful", "NeoFS.EC.split_clamped", "NeoFS.EC.encodeBuf_no_view_write",
+               "NeoFS.EC.multi_rule_independent", "NeoFS.EC.unclamped_corrupts"],
+     engines=[dict(name="ec", quick=1, thorough=1)],
+     claim="Lean proves for every rule d>=1/p and every payload: d+p parts of equal length ceil(n/d); the data parts concatenate to the payload; given the "
+           "Reed-Solomon law (a Coder record, shown satisfiable), Decode returns the payload from ANY >= d parts and partial reconstruction restores "
+           "exactly the requested parts; and, on a memory-level model of reedsolomon.Split/Encode, encoding any list of rules from a buffer whose capacity "
+           "is clamped to the payload never writes to the buffer (no encoding can disturb another), while without the clamp it does (decide-checked). "
+           "Tied to internal/ec and putsvc.modifyECParentObject by a differential run: all erasure patterns up to p+1 for d+p<=8, partial "
+           "reconstruction masks, Split memory layouts by pointer inspection for 6 capacities, multi-rule encodings from the pooled buffer.",
+     note="Trusted/assumed: klauspost/reedsolomon Galois-field arithmetic (Coder.Lawful; the run exercises the law on the real library), its Split memory "
+          "behaviour (Model/ECBuf.lean, tied by the layout stream), SHA-256. Decode of an empty payload is outside the theorem (the get service never calls it).",
+     rule="rules 1..5/0..3 (thorough 1..8/0..4) x 16 payload lengths 0..4096 x every erasure pattern of <= p+1 parts (quick: <= 60 sampled per case), "
+          "3 present/required masks, 6 buffer capacities, 400 seeded multi-rule encodings; non-trivial = erased parts and non-empty payload, or "
+          "multi-rule with >= 2 rules; distinct by op")
